@@ -20,6 +20,9 @@ BUILD = os.path.join(VERIF, ".build", KEY)
 GOENV = dict(os.environ, GOWORK="off", GOFLAGS="-mod=mod", GOPROXY="off", GOSUMDB="off",
              GOTOOLCHAIN="local", CGO_ENABLED="0")
 GUARD = "verif"
+# evidence and replays of the registered checks come from /repo itself; runs against a scratch worktree
+# (VERIF_REPO, used to test the checks against seeded changes) write theirs under .build/<key>/
+OUTDIR = os.path.join(VERIF, "evidence") if os.path.abspath(REPO) == "/repo" else os.path.join(BUILD, "evidence")
 
 ALLOWED_AXIOMS = {
     # axioms declared by Coq's own standard library (Reals, functional extensionality)
@@ -97,7 +100,7 @@ class Ctx:
         for d in (self.gen, self.work):
             shutil.rmtree(d, ignore_errors=True)
             os.makedirs(d, exist_ok=True)
-        os.makedirs(os.path.join(VERIF, "evidence", "replays"), exist_ok=True)
+        os.makedirs(os.path.join(OUTDIR, "replays"), exist_ok=True)
         self.extra = {}
         self.assumptions = []
         self.thorough = tier == "thorough"
@@ -244,7 +247,7 @@ class Ctx:
             return out_bin
 
     def replay_file(self, tag, obj):
-        p = os.path.join(VERIF, "evidence", "replays", "%s_%s.json" % (self.id, tag))
+        p = os.path.join(OUTDIR, "replays", "%s_%s.json" % (self.id, tag))
         with open(p, "w") as f:
             json.dump(obj, f, indent=1, default=str)
         return p
@@ -400,8 +403,8 @@ def run_property(pid, tier, seed):
     ev = {"property_id": pid, "tier": tier, "seed": seed, "level": "proof", "coverage": cov,
           "assumptions": list(getattr(mod, "ASSUMPTIONS", [])) + ctx.assumptions,
           "wall_s": round(wall, 2), "violations": violations}
-    os.makedirs(os.path.join(VERIF, "evidence"), exist_ok=True)
-    with open(os.path.join(VERIF, "evidence", pid + ".json"), "w") as f:
+    os.makedirs(OUTDIR, exist_ok=True)
+    with open(os.path.join(OUTDIR, pid + ".json"), "w") as f:
         json.dump(ev, f, indent=1, default=str)
     for l in lines:
         print(l)
